@@ -32,7 +32,8 @@ ASSUMPTIONS = [
 ]
 EXHAUSTIVE_SCOPE = {
   "quick": "reference corpus (one frame per protocol/message kind, even and odd payload): each frame itself, every truncation length, and the "
-           "values {0, 0xff, b^1, b^0x80, b+1} at every byte offset",
+           "values {0, 0xff, b^1, b^0x80, b+1} at every byte offset; each of these faults once as is and once followed by a repair of all "
+           "checksums the reference dissector locates",
   "thorough": "as quick, plus all 256 values at every byte offset that the reference dissector attributes to a header (not to the innermost payload)",
 }
 
@@ -111,6 +112,10 @@ def run_case(case):
   raw = case["raw"]
   if not isinstance(raw, bytes):
     raise HarnessError("case without bytes")
+  if case.get("fix"):
+    # the fault is followed by a repair of every checksum the reference dissector can locate, so that
+    # parsers guarded by a checksum (ICMPv6, IGMP) still see the damaged structure
+    raw = P.fix_checksums(raw)
   out = Outcome()
   out.label("src:" + case.get("src", "?").split(":")[0])
   out.label("eth:" + _ethclass(raw))
@@ -235,6 +240,24 @@ def enum_faults(tier):
           continue
         done.add(v)
         yield {"raw": f[:i] + bytes([v]) + f[i + 1:], "src": "corrupt:%s:%d:%s" % (name, i, op)}
+
+
+_HAS_CSUM = {}
+
+
+def _has_csum(name, f):
+  if name not in _HAS_CSUM:
+    _HAS_CSUM[name] = any(c["name"].endswith(".csum") for c in P.dissect(f).checks)
+  return _HAS_CSUM[name]
+
+
+def enum_faults_repaired(tier):
+  """the same single faults, each followed by a repair of the checksums (frames that carry one)"""
+  for c in enum_faults(tier):
+    kind, name = c["src"].split(":")[:2]
+    if kind == "valid":
+      continue
+    yield {"raw": c["raw"], "fix": True, "src": "repaired-" + c["src"]}
 
 
 def enum_all_values(tier):
@@ -365,10 +388,12 @@ def plan(tier):
   if tier == "quick":
     return [
       Enum("single-fault", lambda: enum_faults(tier), shards=16),
+      Enum("single-fault-checksums-repaired", lambda: enum_faults_repaired(tier), shards=16),
       Hyp("mutation", lambda: _strategy(tier), examples=6000, shards=16),
     ]
   return [
     Enum("single-fault", lambda: enum_faults(tier), shards=16),
+    Enum("single-fault-checksums-repaired", lambda: enum_faults_repaired(tier), shards=16),
     Enum("all-values-on-headers", lambda: enum_all_values(tier), shards=16),
     Hyp("mutation", lambda: _strategy(tier), examples=400000, shards=16),
   ]
